@@ -40,6 +40,7 @@ type Case struct {
 type SeqJob struct {
 	ID    int     `json:"id"`
 	N     int     `json:"n"`
+	TC    []bool  `json:"tc"` // is exchange x's own UDP reply truncated
 	Steps [][]any `json:"steps"`
 }
 
@@ -298,6 +299,8 @@ func runOnce(c Case, timeout time.Duration, try int) (res Result) {
 
 type seqConn struct {
 	id      int
+	half    bool          // the server has closed its side
+	gone    chan struct{} // the client closed after that
 	c       net.Conn
 	wmu     sync.Mutex
 	pending []pend // queries read, reply not yet written (in order)
@@ -315,7 +318,12 @@ func runSeq(sj SeqJob) (res Result) {
 	rng := rand.New(rand.NewSource(vh.Seed()*104729 + int64(sj.ID)))
 	res = Result{Seq: true, ID: sj.ID, Tries: 1}
 	r := &rec{}
-	r.log(map[string]any{"ev": "Seq"})
+	n := sj.N
+	tc := make([]bool, n+1)
+	for x := 1; x <= n; x++ {
+		tc[x] = x-1 >= len(sj.TC) || sj.TC[x-1]
+	}
+	r.log(map[string]any{"ev": "Seq", "tc": tc[1:]})
 
 	var uc net.PacketConn
 	var tl net.Listener
@@ -339,7 +347,6 @@ func runSeq(sj SeqJob) (res Result) {
 	defer tl.Close()
 	res.Addr = "udp://" + uc.LocalAddr().String()
 
-	n := sj.N
 	qs := make([][]byte, n+1)
 	udpRep := make([][]byte, n+1)
 	tcpRep := make([][]byte, n+1)
@@ -348,7 +355,11 @@ func runSeq(sj SeqJob) (res Result) {
 		m.SetQuestion(fmt.Sprintf("e%d-s%d.c17.verif.test.", x, sj.ID), []uint16{dns.TypeA, dns.TypeAAAA, dns.TypeTXT}[x%3])
 		m.Id = uint16(rng.Intn(65536))
 		qs[x], _ = m.Pack()
-		udpRep[x] = mkReply(qs[x], 0x8300, len(qs[x])+rng.Intn(200), 0x11)
+		word := uint16(0x8300)
+		if !tc[x] {
+			word = 0x8100
+		}
+		udpRep[x] = mkReply(qs[x], word, len(qs[x])+rng.Intn(200), 0x11)
 		tcpRep[x] = mkReply(qs[x], 0x8180, len(qs[x])+40+rng.Intn(2000), 0x77)
 	}
 	which := func(b []byte) int { // which exchange's query is this (modulo the id)
@@ -362,6 +373,8 @@ func runSeq(sj SeqJob) (res Result) {
 
 	var mu sync.Mutex // server state
 	conns := []*seqConn{}
+	lastWire := make([][]byte, n+1) // wire id of x's last UDP query
+	var dupArmed []int              // copies of finished exchanges' replies to send before the next reply
 	seenTcp := make([]chan struct{}, n+1)
 	done := make([]chan struct{}, n+1)
 	for x := 1; x <= n; x++ {
@@ -383,6 +396,21 @@ func runSeq(sj SeqJob) (res Result) {
 			if x == 0 {
 				continue
 			}
+			mu.Lock()
+			lastWire[x] = append([]byte(nil), b[:2]...)
+			dups := dupArmed
+			dupArmed = nil
+			mu.Unlock()
+			for _, y := range dups {
+				// a late / duplicated copy of the reply to the finished exchange y, with y's wire id
+				if lastWire[y] == nil {
+					continue
+				}
+				d := append([]byte(nil), udpRep[y]...)
+				copy(d[:2], lastWire[y])
+				r.log(map[string]any{"ev": "UdpDup", "y": y})
+				uc.WriteTo(d, from)
+			}
 			rep := append([]byte(nil), udpRep[x]...)
 			copy(rep[:2], b[:2])
 			time.Sleep(2 * time.Millisecond) // see runOnce
@@ -397,19 +425,29 @@ func runSeq(sj SeqJob) (res Result) {
 				return
 			}
 			mu.Lock()
-			sc := &seqConn{id: len(conns) + 1, c: c}
+			sc := &seqConn{id: len(conns) + 1, c: c, gone: make(chan struct{})}
 			conns = append(conns, sc)
 			r.log(map[string]any{"ev": "TcpAccept", "c": sc.id})
 			mu.Unlock()
 			go func() {
 				defer c.Close()
+				gone := func() {
+					mu.Lock()
+					if sc.half {
+						r.log(map[string]any{"ev": "CClosed", "c": sc.id})
+						close(sc.gone)
+					}
+					mu.Unlock()
+				}
 				for {
 					h := make([]byte, 2)
 					if _, err := io.ReadFull(c, h); err != nil {
+						gone()
 						return
 					}
 					body := make([]byte, binary.BigEndian.Uint16(h))
 					if _, err := io.ReadFull(c, body); err != nil {
+						gone()
 						return
 					}
 					x := which(body)
@@ -471,12 +509,48 @@ func runSeq(sj SeqJob) (res Result) {
 			return false
 		}
 	}
-	for _, st := range sj.Steps {
+	stepOf := func(st []any) (string, int) {
 		op, _ := st[0].(string)
 		xf, _ := st[1].(float64)
-		x := int(xf)
+		return op, int(xf)
+	}
+	for si, st := range sj.Steps {
+		op, x := stepOf(st)
 		switch op {
+		case "dup":
+			// armed together with the start step before it
+		case "sclose":
+			mu.Lock()
+			var sc *seqConn
+			if x >= 1 && x <= len(conns) {
+				sc = conns[x-1]
+			}
+			if sc != nil && !sc.half && len(sc.pending) == 0 {
+				sc.half = true
+				r.log(map[string]any{"ev": "SClose", "c": sc.id})
+				if t, ok := sc.c.(*net.TCPConn); ok {
+					t.CloseWrite()
+				} else {
+					sc.c.Close()
+				}
+			} else {
+				sc = nil
+			}
+			mu.Unlock()
+			if sc != nil && !waitCh(sc.gone) {
+				res.Inconclusive = fmt.Sprintf("the client did not close connection %d after the server had", x)
+			}
 		case "start":
+			// duplicates that the schedule delivers while x waits for its UDP reply
+			mu.Lock()
+			for _, nx := range sj.Steps[si+1:] {
+				nop, ny := stepOf(nx)
+				if nop != "dup" {
+					break
+				}
+				dupArmed = append(dupArmed, ny)
+			}
+			mu.Unlock()
 			ctx, cancel := context.WithTimeout(context.Background(), 4*stepWait)
 			cancels[x] = cancel
 			defer cancel()
